@@ -838,4 +838,141 @@ theorem comp_forc {c : Cfg} {q hd close e body} (hfh : ForHead c hd close)
   simp only [List.append_assoc, List.cons_append, List.nil_append] at h1 h2 ⊢
   simp [command, h1, h2]
 
+theorem comp_casec {c : Cfg} {q w k j e items} (hw : wordLike w = true)
+    (hdi : Derives c .caseItems e items) (ihi : Comp c .caseItems e items) :
+    Comp c (.compound q) .closed (kCase :: w :: nls k ++ kIn :: nls j ++ items) := by
+  intro f rest neg hf
+  simp only [List.length_append, List.length_cons, nls_length] at hf
+  obtain ⟨f', rfl⟩ : ∃ f', f = f' + 1 := ⟨f - 1, by omega⟩
+  obtain ⟨t0, r0, rfl, ht0⟩ := first_of_derives hdi
+  simp only [List.length_cons] at hf
+  have h1 := caseHead_complete hw k j ((t0 :: r0) ++ rest) (by simpa using ht0)
+  have h2 := ihi f' rest (by simp; omega)
+  simp only [List.append_assoc, List.cons_append] at h1 h2 ⊢
+  simp [command, h1, h2]
+
+theorem comp_ci_esac {c : Cfg} : Comp c .caseItems .closed [kEsac] := by
+  intro f rest hf
+  obtain ⟨f', rfl⟩ : ∃ f', f = f' + 1 := ⟨f - 1, by omega⟩
+  simp [caseItems]
+
+/-- The pattern part of a case item as `caseItems` reads it. -/
+theorem case_pats {lp pat X : List Tok} (hlp : lp = [] ∨ lp = [lparen]) (hpat : Pats pat)
+    (hes : lp = [] → pat.head? ≠ some kEsac) :
+    ∃ t r, lp ++ pat ++ X = t :: r ∧ t ≠ kEsac ∧
+      patterns (if t = lparen then r else t :: r) = some X := by
+  have hp := patterns_complete hpat X
+  have hpw : ∃ w r, pat = w :: r ∧ wordLike w = true := by
+    cases hpat with
+    | one hw => exact ⟨_, _, rfl, hw⟩
+    | more hw _ => exact ⟨_, _, rfl, hw⟩
+  obtain ⟨w, r, rfl, hw⟩ := hpw
+  rcases hlp with rfl | rfl
+  · have hnl : w ≠ lparen := by rintro rfl; simp [wordLike, isLitWord] at hw
+    exact ⟨w, r ++ X, rfl, by simpa using hes rfl, by simpa [hnl] using hp⟩
+  · exact ⟨lparen, (w :: r) ++ X, rfl, by decide, by simpa using hp⟩
+
+theorem caseItems_step {c : Cfg} {f : Nat} {t : Tok} {r r1 : List Tok} {a : Bool} {r2 : List Tok}
+    (ht : t ≠ kEsac) (hp : patterns (if t = lparen then r else t :: r) = some r1)
+    (hs : stmts c .case [kEsac] f true false r1 = .ok (a, r2)) :
+    (∀ r3, r2 = dsemi :: r3 → caseItems c (f+1) (t :: r) = caseItems c f (skipNL r3)) ∧
+    (∀ r3, r2 = kEsac :: r3 → caseItems c (f+1) (t :: r) = .ok r3) := by
+  have hunf : caseItems c (f+1) (t :: r) =
+      (match patterns (if t = lparen then r else t :: r) with
+      | none => R.err
+      | some r1 =>
+        match stmts c .case [kEsac] f true false r1 with
+        | .ok (_, dsemi :: r2) => caseItems c f (skipNL r2)
+        | .ok (_, r2) => expect kEsac r2
+        | .err => .err
+        | .oof => .oof) := by
+    cases t <;> first | rfl | exact absurd rfl ht
+  constructor
+  · intro r3 h3; subst h3; rw [hunf, hp]; simp only [hs]
+  · intro r3 h3; subst h3; rw [hunf, hp]; simp only [hs]; simp [expect]
+
+theorem comp_ci_last {c : Cfg} {lp pat a e l} (hlp : lp = [] ∨ lp = [lparen]) (hpat : Pats pat)
+    (hes : lp = [] → pat.head? ≠ some kEsac)
+    (ihl : Comp c (.list .case [kEsac] a) e l) (hal : allows .case e (some kEsac) = true) :
+    Comp c .caseItems .closed (lp ++ pat ++ l ++ [kEsac]) := by
+  intro f rest hf
+  simp only [List.length_append, List.length_cons, List.length_nil] at hf
+  obtain ⟨f', rfl⟩ : ∃ f', f = f' + 1 := ⟨f - 1, by omega⟩
+  obtain ⟨t, r, htr, hte, hp⟩ := case_pats (X := l ++ kEsac :: rest) hlp hpat hes
+  have hs := ihl f' (kEsac :: rest) true false (by decide) (by simpa using hal)
+    (listEnd_stop (by decide) (by decide) (by decide) (by decide)) (by omega) (by simp)
+  have := (caseItems_step hte hp hs).2 rest rfl
+  have heq : lp ++ pat ++ l ++ [kEsac] ++ rest = t :: r := by rw [← htr]; simp
+  rw [heq]; exact this
+
+theorem comp_ci_item {c : Cfg} {lp pat a e l k e' rest'} (hlp : lp = [] ∨ lp = [lparen])
+    (hpat : Pats pat) (hes : lp = [] → pat.head? ≠ some kEsac)
+    (ihl : Comp c (.list .case [kEsac] a) e l) (hal : allows .case e (some dsemi) = true)
+    (hdr : Derives c .caseItems e' rest') (ihr : Comp c .caseItems e' rest') :
+    Comp c .caseItems .closed (lp ++ pat ++ l ++ dsemi :: nls k ++ rest') := by
+  intro f rest hf
+  simp only [List.length_append, List.length_cons, nls_length] at hf
+  obtain ⟨f', rfl⟩ : ∃ f', f = f' + 1 := ⟨f - 1, by omega⟩
+  obtain ⟨t0, r0, rfl, ht0⟩ := first_of_derives hdr
+  simp only [List.length_cons] at hf
+  obtain ⟨t, r, htr, hte, hp⟩ := case_pats (X := l ++ dsemi :: (nls k ++ (t0 :: r0) ++ rest)) hlp hpat hes
+  have hs := ihl f' (dsemi :: (nls k ++ (t0 :: r0) ++ rest)) true false (by decide)
+    (by simpa using hal)
+    (.inr ⟨dsemi, _, rfl, by decide, by decide, by decide, .inr (.inr ⟨rfl, rfl⟩)⟩) (by omega) (by simp)
+  have h1 := (caseItems_step hte hp hs).1 _ rfl
+  have hsk : skipNL (nls k ++ (t0 :: r0) ++ rest) = (t0 :: r0) ++ rest := by
+    simpa using skipNL_nls_cons (k := k) (r := r0 ++ rest) ht0
+  have heq : lp ++ pat ++ l ++ dsemi :: nls k ++ (t0 :: r0) ++ rest = t :: r := by rw [← htr]; simp
+  rw [heq, h1, hsk]
+  exact ihr f' rest (by simp; omega)
+
+theorem complete_all {c : Cfg} {nt e ts} (h : Derives c nt e ts) : Comp c nt e ts := by
+  induction h with
+  | program _ _ => trivial
+  | l_nil => exact comp_l_nil
+  | l_nl _ ih => exact comp_l_nl ih
+  | l_last hd hs ih => exact comp_l_last hd hs ih
+  | l_sep hd hs hsep hal _ ihs ihl => exact comp_l_sep hd hs hsep hal ihs ihl
+  | l_newl hd hs hal _ ihs ihl => exact comp_l_newl hd hs hal ihs ihl
+  | stmt _ _ ihp iht => exact comp_stmt ihp iht
+  | t_nil => exact comp_t_nil
+  | t_op hop hal hdp _ ihp iht => exact comp_t_op hop hal hdp ihp iht
+  | b_plain hd ih => exact comp_b_plain hd ih
+  | b_bang hba hd hnb ih => exact comp_b_bang hba hd hnb ih
+  | b_bangs hba hd hnb ih => exact comp_b_bangs hba hd hnb ih
+  | b_bare hba => exact comp_b_bare hba
+  | pipeline _ _ ihc iht => exact comp_pipeline ihc iht
+  | p_nil => exact comp_p_nil
+  | p_pipe hal hdc _ ihc iht => exact comp_p_pipe hal hdc ihc iht
+  | c_simple hpr hf hi => exact comp_c_simple hpr hf hi
+  | c_redir hw hr => exact comp_c_redir hw hr
+  | c_compound hdb hpost ihb => exact comp_c_compound hdb ihb hpost
+  | f_andor hfb hn hd ih => exact comp_f_andor hfb hn hd ih
+  | f_command hfb hn hd ih => exact comp_f_command hfb hn hd ih
+  | f_compound hfb hn hd hsc ih => exact comp_f_compound hfb hn hd hsc ih
+  | block _ hal ihl => exact comp_block ihl hal
+  | subshell _ hal ihl => exact comp_subshell ihl hal
+  | ifc _ hal1 _ hdt ih1 ih2 iht => exact comp_ifc ih1 hal1 ih2 hdt iht
+  | i_fi _ => exact comp_i_fi
+  | i_else _ _ hal ihl => exact comp_i_else ihl hal
+  | i_elif _ _ hal1 _ hdt ih1 ih2 iht => exact comp_i_elif ih1 hal1 ih2 hdt iht
+  | loop hkw _ hal1 _ hal2 ih1 ih2 => exact comp_loop hkw ih1 hal1 ih2 hal2
+  | forc hfh _ hal ihl => exact comp_forc hfh ihl hal
+  | casec hw hdi ihi => exact comp_casec hw hdi ihi
+  | ci_esac => exact comp_ci_esac
+  | ci_last hlp hpat hes _ hal ihl => exact comp_ci_last hlp hpat hes ihl hal
+  | ci_item hlp hpat hes _ hal hdr ihl ihr => exact comp_ci_item hlp hpat hes ihl hal hdr ihr
+
+theorem parseWith_complete {c : Cfg} {ts : List Tok} {f : Nat} (hf : 8 * ts.length + 5 ≤ f)
+    (h : Derives c .program .closed ts) : parseWith c f ts = true := by
+  cases h with
+  | @program a e _ hl =>
+    have := complete_all hl f [] true false (by simp [stopsOK])
+      (by cases e <;> rfl) (.inl rfl) hf (by simp)
+    simp only [List.append_nil] at this
+    simp [parseWith, this]
+
+theorem parse_complete {c : Cfg} {ts : List Tok} (h : Derives c .program .closed ts) :
+    parse c ts = true := parseWith_complete (by simp [fuelFor]) h
+
 end ShVerif.C12
